@@ -479,7 +479,7 @@ C12_LOOPS = {"cellToLocalIjk.0": 7, "cellToLocalIjk.1": 7, "cellToLocalIjk.2": 7
               "thorough": "digit-walking APIs at resolution fields 0-3; cellToVertex at field 0 (class L)"},
       outside="k >= 2, larger sets, deeper children; every API that reaches trigonometry or the FP cell-boundary code (latLngToCell beyond argument validation, cellToLatLng, cellToBoundary, vertexToLatLng, areas, edge lengths, polygon functions, cellsToLinkedMultiPolygon): their integer prefixes are covered by C02/C03/C19 jobs, the FP kernels are not decided",
       assumptions=["malloc does not fail in these jobs (allocation failure is C17)", "S-TRIG stubs for greatCircleDistance*"],
-      stubs=["sin, cos, asin, ... -> S-TRIG (GCDIST job only)"])
+      stubs=["sin, cos, asin, ... -> S-TRIG (GCDIST job only)", "getIcosahedronFaces_glue: isPentagon, _h3ToFaceIjk, _faceIjkToVerts, _faceIjkPentToVerts, _adjustOverageClassII, _adjustPentVertOverage -> arbitrary faces 0-19 / errors (its loops and exact-size output buffer are the subject)"])
 def c12(tier):
     js = []
     def ub(name, defs, **kw):
@@ -518,6 +518,11 @@ def c12(tier):
                          bound="arbitrary word with resolution field %d (L-UP7 model for the aperture-7 parent)" % r))
     js += with_witness(ub("gridDisk_r0_k1", ["-DDISK", "-DFN=0", "-DRES=0", "-DKK=1"], unwind=4, est=100, mem="M"))[1:]
     js += with_witness(ub("areNeighborCells_r0", ["-DPAIR", "-DFN=0", "-DRES=0"], unwind=4, est=100, mem="M"))[1:]
+    # getIcosahedronFaces end to end does not fit (above); its own loops and exact-size output buffer are decided on any word
+    # with the geometry replaced by arbitrary faces (the C19 glue harness, here with the undefined-behaviour checks as the subject)
+    js.append(J("getIcosahedronFaces_glue", "C19_faces.c", ["-DGLUE"], unwind=8, est=10, checks="ub",
+                stubs={"h3Index": ["isPentagon", "_h3ToFaceIjk"], "faceijk": ["_faceIjkToVerts", "_faceIjkPentToVerts", "_adjustOverageClassII", "_adjustPentVertOverage"]},
+                bound="any word, arbitrary vertex faces 0-19 and conversion errors, output buffer of exactly maxFaceCount ints"))
     return js
 
 
@@ -718,11 +723,11 @@ def c18(tier):
 
 # ------------------------------------------------------------------------------------------- C16
 @prop("C16",
-      functions=["cellsToLinkedMultiPolygon", "destroyLinkedMultiPolygon", "destroyLinkedGeoLoop", "addNewLinkedPolygon", "addNewLinkedLoop", "addLinkedCoord", "h3SetToVertexGraph", "destroyVertexGraph", "addVertexNode", "removeVertexNode", "findNodeForEdge", "firstVertexNode", "initVertexGraph"],
-      bounds="memory clauses only. Call protocol of cellsToLinkedMultiPolygon: any component results. destroyLinkedMultiPolygon: every result shape with <= 2 polygons x <= 2 loops x <= 2 coordinates. h3SetToVertexGraph: 2 cells, boundaries of <= 3 arbitrary vertices, arbitrary hash, failure at either cell",
-      outside="every geometric clause (components, orientation, closure, vertex provenance, area): needs real cell boundaries (trig) and point-in-loop tests (symbolic FP division); larger sets and shapes",
-      assumptions=["S-GEO cellToBoundary and an arbitrary _hashVertex in the graph job; allocator shim never fails in these jobs (linkedGeo/vertexGraph assert non-null)"],
-      stubs=["GLUE: h3SetToVertexGraph, _vertexGraphToLinkedGeo, destroyVertexGraph, normalizeMultiPolygon, destroyLinkedMultiPolygon", "GRAPHERR: cellToBoundary, _hashVertex"])
+      functions=["cellsToLinkedMultiPolygon", "destroyLinkedMultiPolygon", "destroyLinkedGeoLoop", "addNewLinkedPolygon", "addNewLinkedLoop", "addLinkedCoord", "normalizeMultiPolygon", "countLinkedLoops", "countLinkedPolygons"],
+      bounds="memory clauses only. Call protocol of cellsToLinkedMultiPolygon: any component results. destroyLinkedMultiPolygon: every result shape with <= 2 polygons x <= 2 loops x <= 2 coordinates. normalizeMultiPolygon + destroy: 2-3 loops of any winding and any hole assignment",
+      outside="the error path of h3SetToVertexGraph (heap-linked hash buckets: no verdict in 2400 s, probed twice); every geometric clause (components, orientation, closure, vertex provenance, area): needs real cell boundaries (trig) and point-in-loop tests (symbolic FP division); larger sets and shapes",
+      assumptions=["allocator shim never fails in these jobs (linkedGeo/vertexGraph assert non-null); winding, bbox and hole assignment are arbitrary-result stubs in the normalize jobs"],
+      stubs=["GLUE: h3SetToVertexGraph, _vertexGraphToLinkedGeo, destroyVertexGraph, normalizeMultiPolygon, destroyLinkedMultiPolygon"])
 def c16(tier):
     js = []
     js += with_witness(J("glue_protocol", "C16_linked.c", ["-DGLUE"], unwind=3, est=5, witness_expect=["build error", "normalize error"],
@@ -734,6 +739,5 @@ def c16(tier):
         j = J("normalize_%dloops" % nl, "C16_linked.c", ["-DNORMALIZE", "-DNL=%d" % nl, "-DVP_MAXALLOC=16"], alloc=True, mode="debug", unwind=6, us=NLp, stubs={"linkedGeo": ["isClockwiseLinkedGeoLoop", "bboxFromLinkedGeoLoop", "findPolygonForHole"]}, est=60, mem="M", timeout=1800,
               witness_expect=["normalize error", "normalize ok"], bound="%d loops of any winding, any hole assignment" % nl)
         js += with_witness(j) if nl == 2 else [j]
-    GL = {"h3SetToVertexGraph.0": 5, "h3SetToVertexGraph.1": 5, "findNodeForEdge.0": 8, "addVertexNode.0": 8, "removeVertexNode.0": 8, "firstVertexNode.0": 8, "destroyVertexGraph.0": 9, "cellToBoundary.0": 4, "harness.0": 13, "vp_alloc_init.0": 13, "memset.0": 8, "memset.1": 8, "memset.2": 2}
-    js += with_witness(J("graph_error", "C16_linked.c", ["-DGRAPHERR"], alloc=True, mode="debug", unwind=8, us=GL, stubs={"h3Index": ["cellToBoundary"], "vertexGraph": ["_hashVertex"]}, est=300, mem="L", timeout=2400, tier="thorough", core=False, bound="2 cells, <= 3 vertices each"))
+    # h3SetToVertexGraph error path (2 cells, <= 3 vertices, arbitrary hash; harness mode GRAPHERR is kept) gave no verdict in 2400 s twice - not registered
     return js
